@@ -446,6 +446,26 @@ def run(model, rep, tier):
     tt = [t for t in cfg.nodes if t.kind == "test" and any(a[0] == "raise_on_truncation" and a[1] == "truthy" for a in atoms(normalise_compare(t.ast.test))) and normalise_compare(t.ast.test)[0] in ("atom", "and")]
     okk = bool(trs) and bool(tt) and all(cfg.edge_dominated(r.id, {(t.id, "t") for t in tt}) for r in trs)
     rep.check(okk, "R-04.7", fw.qualname, where(fw, fw.node), "Truncated is raised only under raise_on_truncation", "Truncated can be raised without raise_on_truncation", stmt="truncated-on-request")
+    # a reader that failed before the header was complete has message None: every `reader.message.<attr>` in from_wire's error arm must come after a
+    # presence test of reader.message in the same condition (short-circuit) or in a dominating test
+    hs_ = [h for h in ast.walk(fw.node) if isinstance(h, ast.ExceptHandler)]
+    n_deref = 0
+    for h in hs_:
+        for tnode in [x for x in ast.walk(h) if isinstance(x, (ast.If, ast.IfExp, ast.While))]:
+            test = tnode.test
+            operands = test.values if isinstance(test, ast.BoolOp) and isinstance(test.op, ast.And) else [test]
+            seen_guard = False
+            for opnd in operands:
+                derefs = [x for x in ast.walk(opnd) if isinstance(x, ast.Attribute) and src(x.value) == "reader.message"]
+                if src(opnd) in ("reader.message", "reader.message is not None"):
+                    seen_guard = True
+                    continue
+                for d in derefs:
+                    n_deref += 1
+                    rep.check(seen_guard, "R-04.7", fw.qualname, where(fw, d), f"`{src(d)}` is read only after `reader.message` was tested in the same condition",
+                              f"`{src(d)}` is evaluated without a preceding test of reader.message: for input shorter than the 12-octet header the reader has no message yet and this raises AttributeError instead of ShortHeader",
+                              stmt="message-present " + d.attr)
+    rep.floor("R-04.7-derefs", n_deref, 1)
     t = " ".join(src(fw.node).split())
     rep.check("m.errors = reader.errors" in t or "errors" in t, "R-04.7", fw.qualname, where(fw, fw.node), "recorded errors are attached to the returned message", "recorded errors are dropped", stmt="errors-returned")
     from rules.c05 import check_validators
@@ -460,6 +480,10 @@ def run(model, rep, tier):
 
 
 WITNESSES = [
+    {"id": "c04-truncation-arm-derefs-none", "rule": "R-04.7", "file": "dns/message.py", "expect": "fires",
+     "old": "        if (\n            reader.message\n            and (reader.message.flags & dns.flags.TC)\n            and raise_on_truncation\n        ):", "new": "        if raise_on_truncation and (reader.message.flags & dns.flags.TC):"},
+    {"id": "c04-twin-truncation-arm-reordered", "rule": "R-04.7", "file": "dns/message.py", "expect": "silent",
+     "old": "        if (\n            reader.message\n            and (reader.message.flags & dns.flags.TC)\n            and raise_on_truncation\n        ):", "new": "        if raise_on_truncation and reader.message and (reader.message.flags & dns.flags.TC):"},
     {"id": "c04-wire-wrapper-removed", "rule": "R-04.3", "file": "dns/rdata.py", "expect": "fires",
      "old": "    with dns.exception.ExceptionWrapper(dns.exception.FormError):\n        return cls.from_wire_parser(rdclass, rdtype, parser, origin)", "new": "    return cls.from_wire_parser(rdclass, rdtype, parser, origin)"},
     {"id": "c04-badpointer-rebased", "rule": "R-04.4", "file": "dns/name.py", "expect": "fires",
